@@ -78,6 +78,7 @@ def main():
     elif cmd == "all":
         root = os.path.join(VERIF, "seeded")
         bad = 0
+        results = {}
         for name in sorted(os.listdir(root)):
             sd = os.path.join(root, name)
             mp = os.path.join(sd, "meta.json")
@@ -89,8 +90,11 @@ def main():
             props = meta.get("checked_by") or [meta["property"]]
             r = check(sd, props)
             caught = any(v.get("exit") == 1 for v in r.values() if isinstance(v, dict))
-            print(f"{'CAUGHT' if caught else 'MISSED'} {name} " + " ".join(f"{k}:exit={v.get('exit')}" for k, v in r.items()), flush=True)
+            first = next((l.split("obligation=", 1)[1] for v in r.values() if isinstance(v, dict) for l in v.get("lines", []) if "obligation=" in l), "")
+            print(f"{'CAUGHT' if caught else 'MISSED'} {name} " + " ".join(f"{k}:exit={v.get('exit')}" for k, v in r.items()) + f" first={first[:140]}", flush=True)
+            results[name] = {"what": meta.get("what"), "caught": caught, "by": {k: v.get("exit") for k, v in r.items()}, "first_obligation": first[:200]}
             bad += not caught
+        json.dump(results, open(os.path.join(HERE, "seed_results.json"), "w"), indent=1)
         return 1 if bad else 0
     return 0
 
